@@ -211,12 +211,18 @@ def cv_case(draw, method, modes):
 # ---------------------------------------------------------------------------
 # check
 
-def _call(case, meas, conds, folds, noise, container, dtype, what):
+def _call(case, meas, conds, folds, noise, container, dtype, what, relib=False, eq_atol=0.0):
     cfg, method = case['cfg'], case['method']
     od = {'cond': gen.as_desc(conds, container)}
     if folds is not None:
         od['fold'] = gen.as_desc(folds, container)
     ds = Dataset(U.np_data(meas, dtype), obs_descriptors=od, descriptors={'subj': 's1'})
+    if relib and folds is not None:
+        # the same rows taken apart by fold and put together again by the library (rows grouped by
+        # fold, descriptors in the containers the library makes)
+        from rsatoolbox.data.ops import merge_datasets
+        ds = lib(lambda: merge_datasets(ds.split_obs('fold')), on_error='reject')
+        od = dict(ds.obs_descriptors)
     before = np.array(ds.measurements, copy=True)
     cvd = 'fold' if folds is not None else None
     nz = None
@@ -227,7 +233,7 @@ def _call(case, meas, conds, folds, noise, container, dtype, what):
     # a deterministic half of the calc_rdm calls hand over a list of two datasets (the same data
     # twice; one shared precision at most): one RDM per dataset, each the single-dataset value
     as_list = case['api'] == 'calc_rdm' and (nz is None or isinstance(nz, np.ndarray)) \
-        and len(conds) % 2 == 0
+        and len(conds) % 2 == 0 and not relib
     if as_list:
         ds_arg = [ds, Dataset(U.np_data(meas, dtype), obs_descriptors={k: gen.as_desc(list(v), container)
                                                                         for k, v in od.items()},
@@ -253,7 +259,7 @@ def _call(case, meas, conds, folds, noise, container, dtype, what):
         ds = ds_single
         require(r.n_rdm == 2, '%s: %d RDMs for a list of two datasets' % (what, r.n_rdm), 'list:n_rdm')
         d = np.asarray(r.dissimilarities, dtype=float)
-        require(np.array_equal(d[0], d[1]), '%s: two datasets with the same data and folds in one '
+        require(core.close(d[0], d[1], 1e-12, 2 * eq_atol), '%s: two datasets with the same data and folds in one '
                 'list give different RDMs (max diff %.3g)' % (what, core.maxdiff(d[0], d[1])),
                 'list:rdm-differs')
         r = r[0]
@@ -299,7 +305,7 @@ def check_cv(case):
     rtol = 1e-9
 
     r = _call(case, case['meas'], conds, folds if explicit else None, noise, case['container'],
-              case['dtype'], what)
+              case['dtype'], what, eq_atol=atol)
     lv = _lookup(r, labels, what)
     dm = r.dissimilarity_measure
     require(isinstance(dm, str) and dm, '%s: dissimilarity_measure %r' % (what, dm), 'measure')
@@ -368,12 +374,20 @@ def check_cv(case):
     meas2 = meas2[order]
     cont2 = 'list' if case['container'] == 'array' else 'array'
     r2 = _call(case, meas2.tolist(), conds2, folds2, None if noise2 is None else noise2.tolist(),
-               cont2, 'float' if case['dtype'] == 'int' else 'int', what + ' [permuted]')
+               cont2, 'float' if case['dtype'] == 'int' else 'int', what + ' [permuted]', eq_atol=atol)
     lv2 = _lookup(r2, labels, what + ' [permuted]')
     if not core.close(lv2, lv, rtol, 2 * atol):
         raise Violation('%s: result changes under channel permutation %r%s: %s vs %s' % (
             what, cp, ', fold renaming (order reversed) and row reversal' if explicit else '',
             core._short(lv2), core._short(lv)), 'invariance:%s:%s' % (method, modesig))
+    if explicit and len(conds) % 3 == 0:
+        r3 = _call(case, case['meas'], conds, folds, noise, case['container'], case['dtype'],
+                   what + ' [split by fold and merged]', relib=True, eq_atol=atol)
+        lv3 = _lookup(r3, labels, what + ' [split by fold and merged]')
+        if not core.close(lv3, lv, rtol, 2 * atol):
+            raise Violation('%s: result changes when the dataset is split by fold and merged again '
+                            'by the library: %s vs %s' % (what, core._short(lv3), core._short(lv)),
+                            'invariance:library-object:%s' % method)
 
 
 def classify_cv(case):
